@@ -66,12 +66,15 @@ fn cover_every_program(cache: &Arc<CacheD<u64, u64>>, clock: &ManualClock, shard
     for key in 101..108u64 { if let Ok(ack) = cache.put_with_weight(key, 1, each) { settled(&ack); } }
     // an expired key in the shard the sweeper visits: walk the clock second by second until the sweeper has taken it
     // (observed through `total_weight_used()` only: a snapshot would iterate the maps and add lock edges of its own)
+    // room first, so that the put below is admitted without evicting anything (an eviction would lower the total and look like the sweep)
+    for key in 101..104u64 { if let Ok(ack) = cache.delete(key) { settled(&ack); } }
     let before = cache.total_weight_used();
     if let Ok(ack) = cache.put_with_weight_and_ttl(110, 1, 1, Duration::from_millis(10)) { settled(&ack); }
     if cache.total_weight_used() <= before { return; }
     for _ in 0..(4 * shards + 4) {
         clock.0.fetch_add(1_000_000_000, Ordering::SeqCst);
-        let deadline = Instant::now() + Duration::from_millis(40);
+        // generous under load (the ticker thread may be starved); left as soon as the sweep is observed
+        let deadline = Instant::now() + Duration::from_millis(400);
         while Instant::now() < deadline {
             if cache.total_weight_used() <= before { return; }
             std::thread::sleep(Duration::from_millis(1));
